@@ -232,10 +232,20 @@ func c12Exec(c c12Case, measure bool) (keys []string, detail, class string) {
 		if o.Accepted {
 			return []string{kp + "oversize-expansion-accepted/" + lim}, detail, "oversize/ACCEPTED"
 		}
-		if !strings.Contains(o.Err.Text, "exceeds maximum size") {
-			// the statement asks only for an error; but an oversize stream answered with a parse
-			// error means the whole expansion was materialised and parsed
-			if c.Size > eff+1 && !strings.Contains(o.Err.Text, "flate") {
+		// the statement asks only for an error; but the outcome may not depend on what lies beyond
+		// limit+1 bytes of the expansion (that would mean it was materialised and looked at): the
+		// same stream with everything after that point replaced by garbage must fare the same
+		if d := c12Doc(c.Entry, c.Size); !c.Bomb && d != nil && c.Size > eff+1 && c.Size <= 64<<20 {
+			twin := append([]byte{}, d...)
+			for i := eff + 1; i < int64(len(twin)); i++ {
+				twin[i] = 'x'
+			}
+			to := c12Call(c.Entry, c.Limit, base64.StdEncoding.EncodeToString(idp.Deflate(twin, c.Level)))
+			detail += fmt.Sprintf(" | same stream with garbage after limit+1 bytes: accepted=%v err=%q panic=%q", to.Accepted, to.Err.Text, to.Panic)
+			if to.Panic != "" {
+				return []string{kp + "panic"}, detail, "panic"
+			}
+			if to.Accepted != o.Accepted || to.Err.Type != o.Err.Type || to.Err.Text != o.Err.Text {
 				return []string{kp + "oversize-expansion-was-parsed/" + lim}, detail, "oversize/PARSED"
 			}
 		}
@@ -344,7 +354,7 @@ func c12Run(r *mc.Run) {
 	if r.Thorough() {
 		bomb = 2 << 30
 	}
-	r.Rule = "configured limit(6: unset, 1, 64, 2048, 65536, 5 MiB) x inflated size around the effective limit (L-1, L, L+1, 2L, 64L) x flate level(5: stored, 1, 6, 9, Huffman-only) x 6 entry points (the unverified decoders always at 5 MiB), documents = a genuine signed message (or the smallest well-formed document) padded with whitespace to the exact size; plus a streamed expansion bomb (256 MiB quick / 2 GiB thorough, ~1000:1) per limit x entry point x level with TotalAlloc measured around the call (sequential phase). Oracle: size > limit => error; size <= limit => identical outcome, data and error to the same bytes presented uncompressed; the same for a DEFLATE-compressed plaintext inside an EncryptedAssertion (3 limits x 4 sizes x 2 levels). non-trivial = the input reached the inflater (raw parse failed); distinct = distinct case"
+	r.Rule = "configured limit(6: unset, 1, 64, 2048, 65536, 5 MiB) x inflated size around the effective limit (L-1, L, L+1, 2L, 64L) x flate level(5: stored, 1, 6, 9, Huffman-only) x 6 entry points (the unverified decoders always at 5 MiB), documents = a genuine signed message (or the smallest well-formed document) padded with whitespace to the exact size; plus a streamed expansion bomb (256 MiB quick / 2 GiB thorough, ~1000:1) per limit x entry point x level with TotalAlloc measured around the call (sequential phase). Oracle: size > limit => error, and the same outcome (acceptance, error type and text) when everything after limit+1 bytes of the expansion is replaced by garbage (no wording is assumed); size <= limit => identical outcome, data and error to the same bytes presented uncompressed; the same for a DEFLATE-compressed plaintext inside an EncryptedAssertion (3 limits x 4 sizes x 2 levels). non-trivial = the input reached the inflater (raw parse failed); distinct = distinct case"
 	r.Assume("runtime.MemStats.TotalAlloc deltas measured in a sequential phase with no other goroutine allocating")
 	var cases []c12Case
 	for _, L := range c12Limits {
